@@ -8,6 +8,7 @@ package kv
 import (
 	"context"
 	"fmt"
+	"runtime"
 	"sort"
 	"sync/atomic"
 	"testing"
@@ -134,6 +135,16 @@ func c14History(ops []*c14Op) []map[string]any {
 func TestVerif_C14_Linearizable(t *testing.T) {
 	rec := verifx.NewRecorder("C14", "linearizable", "KV v2 backend over a gated recording physical backend (transactional or not): 0-4 sequential set-up operations, then 2-4 concurrent clients x 1-3 operations (write with cas = current/next/stale/0/absent, patch, read latest/version, delete latest/versions, undelete, destroy, metadata write max_versions 1-3 / cas_required, metadata delete, metadata read, config cas_required) on 1-2 secret paths, interleaved at storage-operation granularity by a stay-or-switch random walk; oracle: porcupine against the documented sequential model (partitioned by path when no engine-config write is present) with call/return stamped by a logical clock, plus consecutive version numbers and at-most/at-least-one success per presented cas; non-trivial = two writes/patches with the same explicit cas on one path overlap in the schedule, or a delete/destroy/metadata-delete overlaps a write on its path")
 	defer rec.Flush()
+	g0 := runtime.NumGoroutine()
+	defer func() {
+		// every case joins its tasks: nothing may stay parked
+		time.Sleep(50 * time.Millisecond)
+		rec.Set("goroutines_before", g0)
+		rec.Set("goroutines_after", runtime.NumGoroutine())
+		if g := runtime.NumGoroutine(); g > g0+8 {
+			t.Errorf("harness: %d goroutines at the end, %d at the start: tasks were left behind", g, g0)
+		}
+	}()
 	rapid.Check(t, func(rt *rapid.T) {
 		transactional := rapid.Bool().Draw(rt, "transactionalStorage")
 		nPaths := rapid.IntRange(1, 2).Draw(rt, "paths")
@@ -343,7 +354,11 @@ func TestVerif_C14_Linearizable(t *testing.T) {
 		for i, a := range all {
 			if a.out == "err:internal" {
 				internal++
-				rec.Note("internal error without fault injection (transactional=%v): %s -> %s", transactional, a.String(), verifx.Trunc(a.detail, 400))
+				rec.Class("internal-error:"+a.kind, 1)
+				if a.kind != "config" {
+					// seen so far only for two overlapping engine-config writes on transactional storage (commit conflict)
+					rec.Note("internal error without fault injection (transactional=%v): %s -> %s", transactional, a.String(), verifx.Trunc(a.detail, 400))
+				}
 			}
 			if a.client == 0 {
 				continue
